@@ -20,7 +20,8 @@
 #ifndef TBOX_COROUTINE_SEMAPHORE_HPP_20180527
 #define TBOX_COROUTINE_SEMAPHORE_HPP_20180527
 
-#include <queue>
+#include <deque>
+#include <algorithm>
 #include "scheduler.h"
 
 namespace tbox {
@@ -33,13 +34,19 @@ class Semaphore {
 
     //! 请求资源，注意：只能是协程调用
     bool acquire () {
-        if (count_ == 0) {      //! 如果没有资源，则等待
-            token_.push(sch_.getToken());
-            do {
-                sch_.wait();
-                if (sch_.isCanceled())
-                    return false;
-            } while (count_ == 0);
+        //! 如果没有资源，则等待
+        //! 每次等待之前都要登记，醒来之后撤销登记，否则被唤醒后抢不到资源的协程将再也不会被唤醒
+        while (count_ == 0) {
+            auto token = sch_.getToken();
+            token_.push_back(token);
+            sch_.wait();
+            removeToken(token);
+            if (sch_.isCanceled()) {
+                //! 自己被取消了，如果还有资源，要把这次唤醒转交给下一个等待者
+                if (count_ != 0)
+                    wakeOne();
+                return false;
+            }
         }
 
         --count_;
@@ -48,21 +55,34 @@ class Semaphore {
 
     //! 释放资源
     void release() {
-        if (count_ == 0 && !token_.empty()) {
-            auto t = token_.front();
-            token_.pop();
-            sch_.resume(t);
-        }
         ++count_;
+        wakeOne();  //! 只要有等待者就唤醒一个，而不仅仅是在 count_ 由 0 变为 1 的时候
     }
 
     inline bool count() const { return count_; }
 
   private:
+    //! 唤醒最早登记的等待者
+    void wakeOne() {
+        if (!token_.empty()) {
+            auto t = token_.front();
+            token_.pop_front();
+            sch_.resume(t);
+        }
+    }
+
+    //! 撤销登记（如果还在的话）
+    void removeToken(const RoutineToken &token) {
+        auto iter = std::find(token_.begin(), token_.end(), token);
+        if (iter != token_.end())
+            token_.erase(iter);
+    }
+
+  private:
     Scheduler &sch_;
 
     int count_;
-    std::queue<RoutineToken> token_;
+    std::deque<RoutineToken> token_;
 };
 
 }
